@@ -110,6 +110,16 @@ theorem deal_spec (r : Rng) (m n : Nat) (h : m ≤ n) :
     out.length = m ∧ (∀ a ∈ out, a < n) ∧ out.Pairwise (· < ·) :=
   dealLoop_spec n m (n+1) 0 0 r [] (by omega) (by omega) (by omega) (by omega) rfl (by simp) List.Pairwise.nil
 
+/-- the same for the loop as C computes it — the test `(double)(n-j) * esl_random() < (double)(m-i)` evaluated with the carrier's own
+    `mul` and `<` (binary64 in the driver; the exact-arithmetic test above agrees with it only while `(n-j)·x < 2^53`) — over an
+    abstract floating-point carrier, assuming the single fact `DealFact`: `(double) a * esl_random() < (double) a` for `1 ≤ a ≤ B` -/
+theorem deal_spec_abstract {F : Type} [VOps F] {B : Nat} (hf : DealFact F B) {σ : Type} (next : σ → UInt32 × σ)
+    (m n : Nat) (h : m ≤ n) (hnB : n ≤ B) (s : σ) :
+    let out := (dealF (F := F) next m n s).1
+    out.length = m ∧ (∀ a ∈ out, a < n) ∧ out.Pairwise (· < ·) := dealF_spec hf next m n h hnB s
+
+example (B : ℕ) : DealFact ℝ B := fieldDealFact B
+
 /-- a categorical choice returns an index of non-zero probability — for any floating type in which `x + 0 = x`
     and for any roll that is not below `0/norm` (true of `esl_random ∈ [0,1)`); the loop mirrors `esl_rnd_DChoose` -/
 theorem dchoose_nonzero {F : Type} [FOps F] (hadd : ∀ x : F, FOps.add x FOps.zero = x) (roll : F) (p : List F)
@@ -117,6 +127,23 @@ theorem dchoose_nonzero {F : Type} [FOps F] (hadd : ∀ x : F, FOps.add x FOps.z
     (r : Nat) (h : dchoose roll p = some r) : ∃ q, p[r]? = some q ∧ q ≠ FOps.zero := by
   obtain ⟨_, q, hq, hne⟩ := chooseGo_nonzero hadd roll _ p FOps.zero 0 hroll r h
   exact ⟨q, by simpa using hq, hne⟩
+
+/-- `esl_rnd_DChoose` / `FChoose` never reach `esl_fatal("unreached code was reached")`: the loop's final running sum is bit for
+    bit `norm`, so the last test is `roll < norm/norm`; when that holds an index is returned — any floating type, no law assumed -/
+theorem dchoose_never_fatal {F : Type} [FOps F] (roll : F) (p : List F) (hp : p ≠ [])
+    (h1 : FOps.lt roll (FOps.div (p.foldl FOps.add FOps.zero) (p.foldl FOps.add FOps.zero)) = true) :
+    ∃ r, dchoose roll p = some r := dchoose_returns roll p hp h1
+
+/-- `esl_rnd_DChooseCDF` / `FChooseCDF` (`last = cdf[N-1]`): the returned index has non-zero probability mass — `cdf[r]` differs
+    from `cdf[r-1]` (from 0 when `r = 0`) — and `esl_fatal` is never reached when `roll < cdf[N-1]/cdf[N-1]`; any floating type -/
+theorem dchoosecdf_nonzero {F : Type} [FOps F] (roll last : F) (cdf : List F)
+    (hroll : FOps.lt roll (FOps.div FOps.zero last) = false) (r : Nat) (h : dchooseCDFgo roll last cdf 0 = some r) :
+    ∃ c, cdf[r]? = some c ∧ (r = 0 → c ≠ FOps.zero) ∧ (∀ c', 0 < r → cdf[r - 1]? = some c' → c ≠ c') :=
+  dchooseCDF_nonzero roll last cdf hroll r h
+
+theorem dchoosecdf_never_fatal {F : Type} [FOps F] (roll last : F) (cdf : List F) (hl : cdf.getLast? = some last)
+    (h1 : FOps.lt roll (FOps.div last last) = true) : ∃ r, dchooseCDFgo roll last cdf 0 = some r :=
+  dchooseCDF_returns roll last cdf 0 hl h1
 
 /-! non-vacuity -/
 example : (0 : Nat) < 6 ∧ 6 < 2^32 ∧ 3 < 6 := by decide
@@ -295,6 +322,13 @@ theorem model_constants_regenerated :
    ⟨model_uses_generated64.1, model_uses_generated64.2.1, model_uses_generated64.2.2.1, model_uses_generated64.2.2.2.1,
     model_uses_generated64.2.2.2.2.1⟩,
    fun r h => (model_uses_generated_lcg r h).1⟩
+
+/-- the tempering functions of the model are XOR-linear and fix 0 — the same two facts the prober checks of the compiled C
+    tempering on every run — so agreement on the 32 (64) basis words (`model_constants_regenerated`) is agreement everywhere -/
+theorem temper_linear (a b : UInt32) (c d : UInt64) :
+    temper32 (a ^^^ b) = temper32 a ^^^ temper32 b ∧ temper32 0 = 0 ∧
+    temper64 (c ^^^ d) = temper64 c ^^^ temper64 d ∧ temper64 0 = 0 :=
+  ⟨temper32_xor a b, temper32_zero, temper64_xor c d, temper64_zero⟩
 
 /-! ## Seed 0 through Create / CreateFast / CreateTimeseeded / Init (both generators), `esl_rand64_Init`, and the Dump functions -/
 
